@@ -13,6 +13,7 @@
  Rp presence      : optional numeric fields are tested with `is None` / membership, never by truthiness (0 is a value).
  R6 padding cache : the cached design span loss is raised by the att_in of the fibre that was padded (and initialised from span_loss).
  Rx export keys   : each loaded parameter is exported under the key its loader reads it from.
+ R7 design inputs : budget formulas and edge weights of the auto-design (shared with C09-R1, C08-R2).
 """
 import ast
 
@@ -310,8 +311,18 @@ def rx_export_keys(ctx):
     ctx.need('Rx.export-keys', 3)
 
 
+def r7_design_inputs(ctx):
+    """R7: what a re-design of the exported network computes from the exported values is what the first design computed: the
+    gain / power budget formulas (C09-R1: in gain mode dp = prev_dp - loss - prev_voa + gain - in_voa) and the connection
+    weights the auto-design writes (C08-R2: every new edge weighs its own source fibre)"""
+    from .c09 import r1_budget
+    from .c08 import edge_weight_rule
+    r1_budget(ctx)
+    edge_weight_rule(ctx, 'R7.edge-weight')
+
+
 from ..presence import rule_for as _presence_rule
 
 RULES_PRESENCE = ('Rp.presence', _presence_rule('C17', 'a value of exactly 0 would be exported as missing and re-designed on reload'))
 
-RULES = [('R5.handoff', r5_handoff), ('R1.bracket', r1_bracket), ('R2.completeness', r2_completeness), ('R3.fix-point', r3_fixpoints), ('R4.keys', r4_keys), RULES_PRESENCE, ('R6.padding-cache', r6_padding_cache), ('Rx.export-keys', rx_export_keys)]
+RULES = [('R5.handoff', r5_handoff), ('R1.bracket', r1_bracket), ('R2.completeness', r2_completeness), ('R3.fix-point', r3_fixpoints), ('R4.keys', r4_keys), RULES_PRESENCE, ('R6.padding-cache', r6_padding_cache), ('Rx.export-keys', rx_export_keys), ('R7.design-inputs', r7_design_inputs)]
